@@ -3687,14 +3687,17 @@ const (
 
 // Format formats the node.
 func (node *Order) Format(buf *TrackedBuffer) {
-	if node, ok := node.Expr.(*NullVal); ok {
-		buf.Myprintf("%v", node)
-		return
-	}
-	if node, ok := node.Expr.(*FuncExpr); ok {
-		if node.Name.Lowered() == "rand" {
+	// The default direction is not printed for NULL and rand().
+	if node.Direction == AscScr {
+		if node, ok := node.Expr.(*NullVal); ok {
 			buf.Myprintf("%v", node)
 			return
+		}
+		if node, ok := node.Expr.(*FuncExpr); ok {
+			if node.Name.Lowered() == "rand" {
+				buf.Myprintf("%v", node)
+				return
+			}
 		}
 	}
 
